@@ -4,7 +4,7 @@
    the Rust type `String` guarantees, so it is the domain of the property, not a restriction. *)
 From LV Require Import Base.Bytes Model.Utf Model.Obj Model.OneByte Model.TextString Model.TextExtract
   Gen.Tables Spec.PublishedTables Spec.ShownText Spec.ShownBlocks
-  Proofs.TextProofsUtf Proofs.TextProofsTables Proofs.TextProofsString Proofs.TextProofsExtract Proofs.TextProofsBlocks.
+  Proofs.TextProofsUtf Proofs.TextProofsTables Proofs.TextProofsString Proofs.TextProofsExtract Proofs.TextProofsBlocks Proofs.TextProofsFilter.
 Local Open Scope N_scope.
 Local Open Scope string_scope.
 
@@ -135,6 +135,23 @@ Proof.
   intros font t H s Hs. exact (repertoire_rt t (font_encoding_reachable font t H) s Hs).
 Qed.
 
+(* ... and on ARBITRARY text, encode_text followed by decode_text removes exactly the characters the table does
+   not hold (astral characters included) and changes nothing else; [held] is membership in the repertoire *)
+Theorem C16_encode_decode_filter :
+  forall font t, get_font_encoding font = Ok (EncOneByte t) ->
+    forall s, ustring_wf s ->
+      exists bs, enc_string_to_bytes (EncOneByte t) s = Ok bs /\
+                 enc_bytes_to_string (EncOneByte t) bs = Ok (filter (held t) s).
+Proof.
+  intros font t H s Hs. exists (string_to_bytes t s). split; [reflexivity|].
+  exact (encode_decode_filter t (font_encoding_reachable font t H) s Hs).
+Qed.
+
+Theorem C16_held_is_repertoire :
+  forall font t, get_font_encoding font = Ok (EncOneByte t) ->
+    forall c, held t c = true <-> in_repertoire t c.
+Proof. intros font t H c. exact (held_repertoire t (font_encoding_reachable font t H) c). Qed.
+
 (* ---- (3) text shown with such an encoding is what extract_text returns ----
    In memory.  "Also after the document is saved and reloaded" is evaluated directly on the
    implementation for every extraction case (harness) and follows from C01 for the model. *)
@@ -210,6 +227,8 @@ Print Assumptions C16_agrees_with_published.
 Print Assumptions C16_beyond_published.
 Print Assumptions C16_ascii_latin1_identity.
 Print Assumptions C16_repertoire_rt.
+Print Assumptions C16_encode_decode_filter.
+Print Assumptions C16_held_is_repertoire.
 Print Assumptions C16_extract_shown_text.
 Print Assumptions C16_example_text.
 Print Assumptions C16_example_tables.
